@@ -462,14 +462,30 @@ use rand::{Rng, RngExt};
 pub fn random_bytes<const N: usize>() -> [u8; N] {
     let mut buf = [0u8; N];
     rand::rng().fill_bytes(&mut buf);
+    #[cfg(rustrtc_verif)]
+    crate::verif_hooks::fill_random(&mut buf);
     buf
 }
 
 pub fn random_u64() -> u64 {
+    #[cfg(rustrtc_verif)]
+    {
+        let mut b = [0u8; 8];
+        if crate::verif_hooks::fill_random(&mut b) {
+            return u64::from_le_bytes(b);
+        }
+    }
     rand::rng().random()
 }
 
 pub fn random_u32() -> u32 {
+    #[cfg(rustrtc_verif)]
+    {
+        let mut b = [0u8; 4];
+        if crate::verif_hooks::fill_random(&mut b) {
+            return u32::from_le_bytes(b);
+        }
+    }
     rand::rng().random()
 }
 
